@@ -359,3 +359,16 @@ s("C15", "validate-y-asarray", DET, "        ary = np.array(y).ravel()\n        
 s2("C15", "kdq-view-chain", DET, [("            ary = copy.copy(X)\n            ary = np.array(ary)\n            if len(ary.shape) <= 1:\n                # only one", "            ary = np.asarray(X)\n            if len(ary.shape) <= 1:\n                # only one")], "ESC")
 b(["C15"], "hdm-no-deepcopy", HDMF, "        self.reference = copy.deepcopy(X)\n        self.reset()", "        self.reference = X\n        self.reset()")
 b(["C15", "C20"], "preprocess-array-copy", INJ, "        copy = np.copy(data)", "        copy = np.array(data, copy=True)")
+
+# ---------------------------------------------------------------- C16
+s("C16", "ddm-int-ypred", CO + "ddm.py", "        classifier_result = int(y_pred != y_true)", "        classifier_result = int(y_pred != y_true) if int(y_pred) >= 0 else 1", "TNT-label")
+s("C16", "stepd-pred-equals-one", CO + "stepd.py", "        classifier_result = int(y_pred == y_true)", "        classifier_result = int(y_pred == 1)", ["TNT-label", "ROLE"])
+s("C16", "eddm-truthiness", CO + "eddm.py", "        if not classifier_result:\n            self._n_errors += 1", "        if not classifier_result or not y_pred:\n            self._n_errors += 1", "TNT-label")
+s("C16", "lfr-float-coercion", CO + "lfr.py", "        y_p = 1 * y_pred\n", "        y_p = y_pred\n", "TNT-label")
+s("C16", "cusum-reads-ytrue", CD + "cusum.py", "        self._stream.append(X)\n", "        self._stream.append(X if y_true is None else X - y_true)\n", "TNT-unused")
+s("C16", "ddm-reads-x", CO + "ddm.py", "        if self.samples_since_reset < self.n_threshold:\n            return\n", "        if self.samples_since_reset < self.n_threshold or X is not None:\n            return\n", "TNT-unused")
+s("C16", "revert-fix2", AA, "        y_true, y_pred = y_true[0], y_pred[0]\n        new_value = int(y_true == y_pred)", "        new_value = int(y_true == y_pred)\n        y_true, y_pred = y_true[0], y_pred[0]", ["TNT-label", "ROLE"])
+s("C16", "validate-cast-pred", DET, "        if y_pred is not None:\n            y_pred = self._validate_y(y_pred)\n        return X, y_true, y_pred\n\n    @property\n    def total_samples", "        if y_pred is not None:\n            y_pred = self._validate_y(y_pred)\n            if y_true is not None and y_pred.dtype != y_true.dtype:\n                y_pred = y_pred.astype(y_true.dtype)\n        return X, y_true, y_pred\n\n    @property\n    def total_samples", "TNT-label")
+s("C16", "nndvi-uses-ypred", NV, "        test_batch = np.array(X)\n", "        test_batch = np.array(X) if y_pred is None else np.array(X)[: len(y_pred)]\n", "TNT-unused")
+b(["C16"], "ddm-indicator-swapped", CO + "ddm.py", "classifier_result = int(y_pred != y_true)", "classifier_result = int(y_true != y_pred)")
+b(["C16", "C05"], "eddm-temp-agree", CO + "eddm.py", "        classifier_result = int(y_pred == y_true)", "        same = y_pred == y_true\n        classifier_result = int(same)")
